@@ -852,6 +852,27 @@ def oracle_c10(an):
               ev['seq'], ep=ev['ep'], what=sorted(set(kinds)), only_channel_ended_by_cancel_or_error=half_close)
         if ev['frags']:
             V('fragments_leaked', '%s still holds partial frames for %s' % (ev['ep'], ev['frags']), ev['seq'], ep=ev['ep'])
+    # "the stream's id can be used again": with a reduced id space ids come round; the interaction
+    # that re-uses an id must be served like any other
+    reused = {}
+    for (ep, sid), hist in an.sid_hist.items():
+        for k in range(1, len(hist)):
+            prev, iid = hist[k - 1][1], hist[k][1]
+            pia = an.ia.get(prev, {})
+            abnormal = an.cancel_seq(prev) is not None or an.cancel_seq(prev, 'responder') is not None or any(
+                (pia.get(n) or {}).get('error_at') is not None for n in ('resp', 'pub')) or \
+                (pia.get('resp') or {}).get('mode') in ('raise', 'fail')
+            if not abnormal:
+                # after a cancel or an error, frames of the previous occupant may still be in flight and
+                # would be attributed to the new stream: unavoidable when a tiny id space comes round
+                reused[iid] = (ep, sid)
+    if reused:
+        an.world.probe('id_reused', len(reused))
+        for v in oracle_c01(an):
+            iid = v.facts.get('iid')
+            if iid in reused:
+                V('reused_id_not_served', 'interaction %d on the re-used id %d: %s' % (iid, reused[iid][1], v.msg), v.seq,
+                  via=v.cls, ep=reused[iid][0])
     return out
 
 
